@@ -1,7 +1,6 @@
 package main
 
 import (
-	"go/token"
 	"strings"
 
 	"golang.org/x/tools/go/ssa"
@@ -147,53 +146,7 @@ func checkC18(c *Ctx, r *Report) {
 	// R3: idle conditions
 	r3 := r.Rule("R3", "E-GUARD", "the timeout removal is conditioned on (Complete ∧ now-LastReadTime ≥ SeederTTI) ∨ (¬Complete ∧ now-LastWriteTime ≥ LeecherTTI)", 2)
 	if pt := r.MustFunc(r3, "(lib/torrent/scheduler.preemptionTickEvent).apply"); pt != nil {
-		type idle struct {
-			name, getter, limit string
-			complete            bool
-		}
-		for _, id := range []idle{
-			{"idle seeder", "(*lib/torrent/scheduler/dispatch.Dispatcher).LastReadTime", "lib/torrent/scheduler.Config.SeederTTI", true},
-			{"idle leecher", "(*lib/torrent/scheduler/dispatch.Dispatcher).LastWriteTime", "lib/torrent/scheduler.Config.LeecherTTI", false},
-		} {
-			var cmpOK *ssa.BinOp
-			instrsOf(pt, func(in ssa.Instruction) {
-				b, ok := in.(*ssa.BinOp)
-				if !ok {
-					return
-				}
-				elapsedX := mentionsCall(b.X, id.getter)
-				limitY := mentionsField(b.Y, id.limit)
-				elapsedY := mentionsCall(b.Y, id.getter)
-				limitX := mentionsField(b.X, id.limit)
-				dirOK := (elapsedX && limitY && (b.Op == token.GEQ || b.Op == token.GTR)) ||
-					(elapsedY && limitX && (b.Op == token.LEQ || b.Op == token.LSS))
-				if !dirOK {
-					return
-				}
-				// other getter must not be mixed in
-				if condRegion(b.Block(), func(cond ssa.Value, val bool) bool {
-					return val == id.complete && isCallTo(cond, "(*lib/torrent/scheduler/dispatch.Dispatcher).Complete")
-				}) {
-					cmpOK = b
-				}
-			})
-			if cmpOK == nil {
-				r.Bad(r3, pt, id.name+" condition", nil, "no comparison 'now - "+lastSeg(id.getter)+" >= "+lastSeg(id.limit)+"' on the Complete()=="+boolStr(id.complete)+" side: the "+id.name+" timeout does not follow the right activity clock")
-				continue
-			}
-			// the removal must be controlled by it
-			okc := false
-			for _, cs := range callsInNamed(pt, "(*lib/torrent/scheduler.state).removeTorrent") {
-				for _, iff := range controlConds(cs.Instr.Block()) {
-					if mentions(iff.Cond, func(v ssa.Value) bool { return v == cmpOK }, 8) {
-						okc = true
-					}
-				}
-			}
-			r.Check(okc, r3, pt, id.name+" condition", cmpOK, "timeout removal is conditioned on the comparison",
-				"the timeout removal is not conditioned on the "+id.name+" comparison")
-		}
-		// and nothing else removes with the timeout error: removal must be conditioned only on those
+		c18IdleRule(c, r, r3, pt)
 	}
 
 	// R4: getters
